@@ -73,8 +73,16 @@ package crypto
 //@ callrule c33_instruction_parsed in checkInvocationScript
 //@   callee (*scparser.Context).Next
 //@   defines res0 == lastInstructionParsed()
+// ... and the script is approved only when the walk has reached its end (the position of the
+// next instruction is the script's length): an instruction is no reason to stop looking.
+//@ ghost pred positionOfTheNextInstruction() int
+//@ callrule c33_walk_position in checkInvocationScript
+//@   callee (*scparser.Context).NextIP
+//@   pureeffect
+//@   defines result == positionOfTheNextInstruction()
 //@ func checkInvocationScript
 //@   loop 1 iteration [walk_goes_on_only_after_a_push_instruction] lastInstructionParsed() <= 32
+//@   ensures [approved_only_after_the_whole_script_was_walked] err == nil ==> positionOfTheNextInstruction() >= len(script)
 //@ callrule c33_witness_run_only_with_a_push_only_invocation_script in verifyN3Scripts
 //@   callee transaction.NewFakeTX
 //@   requires [invocation_script_cannot_end_the_run] invocationScriptOnlyPushes()
